@@ -4,6 +4,7 @@ package main
 import (
 	"fmt"
 	"os"
+	"strconv"
 
 	"verif/harness/core"
 	"verif/harness/sm"
@@ -13,6 +14,10 @@ func main() {
 	if len(os.Args) < 2 {
 		fmt.Println("usage: vcheck <property-id> [--tier quick|thorough] [--replay path]")
 		os.Exit(2)
+	}
+	if os.Args[1] == "__persist_child" && len(os.Args) == 4 {
+		limit, _ := strconv.ParseUint(os.Args[3], 10, 64)
+		os.Exit(sm.PersistChild(os.Args[2], limit))
 	}
 	prop := os.Args[1]
 	c := core.NewCtx(prop, os.Args[2:])
